@@ -61,12 +61,15 @@ def evaluate(cfg):
         res.fail("runoff_bounds", "step %d (%s): Runoff %.6g outside [0, rain %.6g + irrigation %.6g + ponded %.6g]" % (
             i, tr.date[i].date(), ro[i], P[i], A[i], pond0[i]))
     removed = lowered = 0
+    zb_prev = None
     for i in range(n):
         fm = field_mgmt_for(tr, i)
         zb = float(fm.z_bund) if bunds_effective(fm) else 0.0
         # ponded water above the bund height in force today is released as runoff: bunds removed (height 0)
-        # or replaced by lower ones when the season / fallow management takes over
-        released = max(0.0, pond0[i] - zb)
+        # or replaced by lower ones when the season / fallow management takes over. That needs CONFIGURED
+        # bunds in force the day before that were higher than today's: never on the first day of the run
+        released = max(0.0, pond0[i] - zb) if (zb_prev is not None and zb_prev > zb) else 0.0
+        zb_prev = zb
         lo = -released
         if infl[i] < lo - 1e-9 * scale[i]:
             res.fail("infl_negative", "step %d (%s): Infl %.6g < %.6g (ponded at start %.6g, bund height in force today %.6g)" % (
